@@ -5,6 +5,11 @@ V = os.path.dirname(os.path.dirname(os.path.abspath(__file__)))
 TECH = "solver-based bounded symbolic execution of the real Go code (go/ssa interpreted symbolically, SMT: z3 4.8.12 / z3 5.1.0 / cvc5 1.0), counterexamples replayed against the natively compiled code"
 claimed = {
  "C02": ("One-step (inductive) obligations of the append-only chain on the real store wrappers, from an arbitrary last beacon: every path of appendStore.Put / schemeStore.Put decided by SMT within the stated byte-length bounds.", "§5 C02"),
+ "C01": ("Every path on which the real code forwards a partial to the aggregator, aggregates, or stores a synced beacon is executed symbolically with an ideal threshold-signature model at the kyber boundary; the harness re-verifies what reached the observation point (base store, aggregator queue) with its own verifier call.", "§5 C01"),
+ "C03": ("The real aggregation loop (runAggregator as a modelled goroutine, partialCache, tbls.Recover from the dependency, real store stack) fed with symbolic partial packets; ghost state counts distinct valid partials; SMT decides every branch.", "§5 C03"),
+ "C10": ("SyncManager.Sync / tryNode / CheckPastBeacons executed symbolically against peers whose behaviour is a symbolic choice, in every peer order; only verified in-order beacons reach the base store.", "§5 C10"),
+ "C11": ("beacon.SyncChain over the real callbackStore and in-memory store with an environment writer appending at every store access point; the interleaving of appends with scan and live phase is a set of symbolic integers.", "§5 C11"),
+ "C12": ("callbackStore with a consumer that never returns, queue filled to the real capacity; partialCache flooded by symbolic (signer, round, previous) sequences with MaxPartialsPerNode scaled to 3.", "§5 C12"),
  "C16": ("TimeOfRound / NextRound / CurrentRound and time.Duration.Seconds executed symbolically; integers as mathematical integers with explicit mod-2^64 wrap, float64 ops as reals under IEEE-754 rounding axioms; every assertion decided unsat by a solver portfolio within the stated ranges.", "§5 C16"),
  "C17": ("Chain hash and group hash preimages built by the real code over symbolic parameters; hashes are injective uninterpreted functions, so digest equality is preimage equality; determinism and one-parameter sensitivity are SMT obligations.", "§5 C17"),
  "C18": ("Every operation sequence up to the stated length over a small round window on the real in-memory store compared step by step with a sorted-map model; sequences are symbolic, the solver decides every branch and every comparison.", "§5 C18"),
